@@ -175,6 +175,89 @@ def drain_burst(r, U, aged, vals):
     return lines + r_picks
 
 
+def gen_huge(comp, r, cid):
+    """one long, mostly deterministic history on a cache of 1030..1700 entries per list (states are printed as digests):
+    fill, overflow by ~0.8 x size new keys (evictions, ghosts), re-put the earliest keys (ghost hits / revivals), a few
+    gets and length queries. Thresholds such as 1024 on a list or ghost-list size only show at this scale."""
+    S = r.rng(1030, 1700)
+    G = (S * 4) // 5
+    ops = []
+    v = [0]
+
+    def put(k):
+        v[0] += 1
+        ops.append("put %d %d" % (k, k * 100000 + v[0]))
+    if comp == "rawlru":
+        head = "case %d rawlru cap=%d cb=0 keys=u64 hasher=default" % (cid, S)
+        for k in range(1, S + G + 1):
+            put(k)
+            if k % 7 == 0:
+                ops.append("get %d" % r.rng(max(1, k - S + 1), k))
+        for k in range(1, 30):
+            put(k)
+        ops += ["len", "peeklru", "peekmru", "resize %d" % (S // 2), "len", "peeklru"]
+    elif comp == "slru":
+        q = r.rng(1030, 1400)
+        p = r.rng(1030, 1400)
+        head = "case %d slru pcap=%d qcap=%d keys=u64 hasher=default via=new" % (cid, p, q)
+        for k in range(1, q + 60):
+            put(k)
+            ops.append("get %d" % k)                 # promote: the protected segment fills and then demotes
+        for k in range(5000, 5000 + p + 80):
+            put(k)                                    # probationary fills and evicts
+        ops += ["len"]
+        for k in range(1, 20):
+            ops.append("get %d" % k)
+    elif comp == "twoq":
+        head = "case %d twoq size=%d rr=%s gr=%s keys=u64 hasher=default via=params" % (cid, S, f64bits(0.25), f64bits(1.0))
+        for k in range(1, S + G + 1):
+            put(k)
+            if k % 9 == 0:
+                ops.append("get %d" % r.rng(max(1, k - S // 8), k))
+        ops += ["recentlen", "frequentlen", "ghostlen"]
+        for k in range(1, 40):
+            put(k)                                    # the earliest keys are ghosts by now
+        ops += ["recentlen", "frequentlen", "ghostlen", "len"]
+    elif comp == "arc":
+        head = "case %d arc size=%d keys=u64 hasher=default via=new" % (cid, S)
+        for k in range(1, S + G + 1):
+            put(k)
+        ops += ["recentlen", "frequentlen", "recentevictlen", "frequentevictlen"]
+        for k in range(1, 40):
+            put(k)                                    # hits in the recent ghost list: p grows
+        for k in range(1, 40):
+            ops.append("get %d" % k)
+        ops += ["recentlen", "frequentlen", "recentevictlen", "frequentevictlen", "len"]
+    else:
+        w, q, p = r.rng(4, 12), r.rng(1030, 1300), r.rng(1030, 1300)
+        head = "case %d wtinylfu wcap=%d qcap=%d pcap=%d samples=%d fp=%s keys=u64 hasher=default ord=%d" % (cid, w, q, p, 64, f64bits(0.01), r.below(3))
+        for k in range(1, w + q + p + 200):
+            put(k)
+            if k % 5 == 0:
+                ops.append("get %d" % r.rng(max(1, k - 50), k))
+        ops += ["len"]
+    return [head] + ops + ["end"]
+
+
+def gen_bigctor(comp, r, cid):
+    """a cache built with sizes beyond every power-of-two threshold one might clamp at (2^10, 2^12, 2^16, 2^20): the lists
+    must really get the requested capacities (`innercaps` reads them through the hooks)"""
+    big = lambda: r.pick([1025, 4097, 65537, 70000, (1 << 20) + 3])
+    if comp == "rawlru":
+        head = "case %d rawlru cap=%d cb=0 keys=u64 hasher=default" % (cid, big())
+    elif comp == "slru":
+        a, b = r.pick([(big(), r.rng(1, 4)), (r.rng(1, 4), big()), (big(), big())])
+        head = "case %d slru pcap=%d qcap=%d keys=u64 hasher=default via=%s" % (cid, a, b, r.pick(["new", "builder", "setters"]))
+    elif comp == "twoq":
+        head = "case %d twoq size=%d rr=%s gr=%s keys=u64 hasher=default via=params" % (cid, big(), f64bits(0.25), f64bits(r.pick([0.5, 1.0])))
+    elif comp == "arc":
+        head = "case %d arc size=%d keys=u64 hasher=default via=%s" % (cid, big(), r.pick(["new", "builder", "setters"]))
+    else:
+        w, q, p = r.pick([(big(), 2, 2), (2, big(), 2), (2, 2, big())])
+        head = "case %d wtinylfu wcap=%d qcap=%d pcap=%d samples=%d fp=%s keys=u64 hasher=default ord=%d" % (cid, w, q, p, 16, f64bits(0.01), r.below(3))
+    return [head, "innercaps", "cap", "len", "put 1 100001", "put 2 200002", "get 1", "innercaps", "len", "end"]
+
+
 def profile_table(prof, extra):
     t = [(k, w) for k, w in PROFILES[prof].items() if w > 0]
     t += [(k, w) for k, w in extra.items() if w > 0]
@@ -197,10 +280,40 @@ def variant(r, tier_all=True):
 # ---------------------------------------------------------------------------------------------
 # RawLRU
 # ---------------------------------------------------------------------------------------------
+def gen_rawlru_zst(r, cid, nops):
+    """plain LRU whose value type is zero-sized (`vals=zst`, harness side only): every value in the script is 0"""
+    cap = r.weighted([(1, 2), (2, 3), (3, 4), (4, 2), (r.rng(5, 10), 2)])
+    U = cap + 1 + r.below(cap + 2)
+    lines = ["case %d rawlru cap=%d cb=0 keys=u64 hasher=default vals=zst" % (cid, cap)]
+    for _ in range(nops):
+        k = r.rng(1, U)
+        name = r.weighted([("put", 10), ("get", 4), ("peek", 2), ("contains", 1), ("remove", 2), ("removelru", 2), ("getlru", 1),
+                           ("getmru", 1), ("peeklru", 2), ("peekmru", 2), ("resize", 1), ("purge", 1), ("peekorput", 2),
+                           ("containsorput", 2), ("len", 1)])
+        if name in ("put", "peekorput", "containsorput"):
+            lines.append("%s %d 0" % (name, k))
+        elif name in ("get", "peek", "contains", "remove"):
+            lines.append("%s %d" % (name, k))
+        elif name == "resize":
+            lines.append("resize %d" % r.rng(0, cap + 2))
+        else:
+            lines.append(name)
+    lines.append("end")
+    return lines
+
+
 def gen_rawlru(r, cid, nops, opts):
+    if opts.get("bigctor"):
+        return gen_bigctor("rawlru", r, cid)
+    if opts.get("huge"):
+        return gen_huge("rawlru", r, cid)
+    if not opts.get("variant") and not opts.get("cb") and not opts.get("big") and r.chance(1, 12):
+        return gen_rawlru_zst(r, cid, nops)
     cap = r.weighted([(1, 3), (2, 4), (3, 4), (4, 2), (r.rng(5, 16), 2)])
     if opts.get("bigcap") and r.chance(1, 2):
         cap = r.rng(4, 12)          # enough entries for bucket order to differ from recency order
+    if opts.get("big"):
+        cap = r.pick([28, 56, 28, r.rng(15, 60)])
     cb = 1 if (opts.get("cb") or r.chance(1, 2)) else 0
     U = cap + 1 + r.below(cap + 3)
     vals = Vals()
@@ -264,7 +377,12 @@ def gen_rawfrom(r, cid, nops, opts):
         k = r.rng(1, 4)
         items.append("%d:%d" % (k, vals.new(k)))
     hint = 0 if r.chance(1, 3) else n
-    lines = ["case %d rawfrom hint=%d items=%s keys=%s" % (cid, hint, ",".join(items) if items else "-", r.pick(KEYKINDS))]
+    if r.chance(1, 2):
+        # every other `From` impl of the crate; a set of pairs can hold one key twice with different values
+        src = r.pick(["deque", "list", "heap", "hashset", "btreeset", "hashmap", "btreemap"])
+        lines = ["case %d rawfrom hint=%d items=%s keys=u64 src=%s" % (cid, n, ",".join(items) if items else "-", src)]
+    else:
+        lines = ["case %d rawfrom hint=%d items=%s keys=%s" % (cid, hint, ",".join(items) if items else "-", r.pick(KEYKINDS))]
     for _ in range(min(nops, 6)):
         lines.append(common_op(r, r.pick(["put", "get", "census", "sizes"]), 5, vals))
     lines.append("end")
@@ -275,6 +393,10 @@ def gen_rawfrom(r, cid, nops, opts):
 # SegmentedCache
 # ---------------------------------------------------------------------------------------------
 def gen_slru(r, cid, nops, opts):
+    if opts.get("bigctor"):
+        return gen_bigctor("slru", r, cid)
+    if opts.get("huge"):
+        return gen_huge("slru", r, cid)
     pcap = r.weighted([(1, 3), (2, 3), (3, 2), (r.rng(4, 8), 1)])
     qcap = r.weighted([(1, 3), (2, 3), (3, 2), (r.rng(4, 8), 1)])
     if opts.get("big"):
@@ -296,6 +418,10 @@ def gen_slru(r, cid, nops, opts):
     hot = r.rng(1, U)
     for _ in range(nops):
         name = r.weighted(table)
+        if r.chance(1, 50):
+            # drain: every key removed one by one, then the history goes on from an emptied cache
+            lines.extend("remove %d" % k for k in range(1, U + 1))
+            continue
         if name in PROFILES["put"]:
             lines.extend(common_op(r, name, U, vals, hot).split("\n"))
         elif name == "putprotected":
@@ -332,6 +458,10 @@ LISTS_ARC = ["recent", "frequent", "recentevict", "frequentevict"]
 
 
 def gen_twoq(r, cid, nops, opts):
+    if opts.get("bigctor"):
+        return gen_bigctor("twoq", r, cid)
+    if opts.get("huge"):
+        return gen_huge("twoq", r, cid)
     size = r.weighted([(1, 2), (2, 4), (3, 4), (4, 3), (r.rng(5, 12), 2)])
     if opts.get("big"):
         size = r.pick([28, 56, 28, r.rng(15, 40)])
@@ -389,6 +519,10 @@ def gen_twoq(r, cid, nops, opts):
 # AdaptiveCache
 # ---------------------------------------------------------------------------------------------
 def gen_arc(r, cid, nops, opts):
+    if opts.get("bigctor"):
+        return gen_bigctor("arc", r, cid)
+    if opts.get("huge"):
+        return gen_huge("arc", r, cid)
     size = r.weighted([(1, 3), (2, 4), (3, 4), (4, 3), (r.rng(5, 12), 2)])
     if opts.get("big"):
         size = r.pick([28, 56, 28, r.rng(15, 40)])
@@ -438,9 +572,15 @@ def gen_arc(r, cid, nops, opts):
 # W-TinyLFU
 # ---------------------------------------------------------------------------------------------
 def gen_wtinylfu(r, cid, nops, opts):
+    if opts.get("bigctor"):
+        return gen_bigctor("wtinylfu", r, cid)
+    if opts.get("huge"):
+        return gen_huge("wtinylfu", r, cid)
     w = r.weighted([(1, 4), (2, 3), (3, 1), (r.rng(4, 7), 1)])
     q = r.weighted([(1, 4), (2, 3), (3, 1), (r.rng(4, 7), 1)])
     p = r.weighted([(1, 4), (2, 3), (3, 1), (r.rng(4, 7), 1)])
+    if opts.get("big"):
+        w, q, p = r.rng(8, 30), r.pick([28, r.rng(15, 30)]), r.pick([28, r.rng(15, 30)])
     samples = r.weighted([(r.rng(1, 8), 3), (r.rng(9, 32), 3), (r.rng(33, 64), 1), (r.rng(65, 400), 2)])   # > ~53: doorkeeper above its 512-bit floor
     fp = r.pick([0.01, 0.1, 0.5, 0.001])
     U = w + q + p + 1 + r.below(4)
@@ -464,6 +604,10 @@ def gen_wtinylfu(r, cid, nops, opts):
     hot = r.rng(1, U)
     for _ in range(nops):
         name = r.weighted(table)
+        if r.chance(1, 50):
+            # drain: every key removed one by one, then the history goes on from an emptied cache
+            lines.extend("remove %d" % k for k in range(1, U + 1))
+            continue
         if name in PROFILES["put"]:
             lines.extend(common_op(r, name, U, vals, hot).split("\n"))
         elif name == "wsizes":
@@ -513,26 +657,69 @@ def gen_tinylfu(r, cid, nops, opts):
 # SampledLFU
 # ---------------------------------------------------------------------------------------------
 def gen_sampled(r, cid, nops, opts):
-    maxc = r.pick([0, 1, 100, 1 << 40, -5, r.rng(0, 1000)])
+    I64MAX, I64MIN = (1 << 63) - 1, -(1 << 63)
+
+    def fits(x):
+        return I64MIN <= x <= I64MAX
+    extreme = r.chance(1, 4)
+    if extreme:
+        # budgets and costs at the ends of the i64 range; the generator keeps an exact shadow of the bookkeeping and only
+        # emits an operation when every intermediate value of the ORIGINAL formulas stays inside i64 (the model computes
+        # in unbounded integers, the crate wraps in release builds: an overflow would be a false alarm, not a finding)
+        maxc = r.pick([I64MAX, I64MAX - r.below(5), I64MIN, I64MIN + r.below(5), -10, 10])
+    else:
+        maxc = r.pick([0, 1, 100, 1 << 40, -5, r.rng(0, 1000)])
     samples = r.rng(0, 6)
     lines = ["case %d sampled max=%d samples=%d" % (cid, maxc, samples)]
     U = r.rng(1, 6)
+    costs, used, mx = {}, 0, maxc
 
     def cost():
+        if extreme and r.chance(1, 3):
+            return r.pick([I64MAX, I64MAX - r.below(100), I64MIN, I64MIN + r.below(100), (1 << 62) + r.below(9), -(1 << 62) - r.below(9)])
         return r.pick([0, 1, -1, r.rng(0, 50), -r.rng(0, 50), (1 << 40) - r.below(1000), -(1 << 40) + r.below(1000)])
     for _ in range(nops):
         name = r.weighted([("sinc", 8), ("supd", 4), ("srem", 3), ("sclear", 1), ("smax", 1), ("room", 4), ("getmax", 1), ("fill", 3)])
         k = r.rng(1, U) if r.chance(9, 10) else r.pick([0, MASK])
-        if name in ("sinc", "supd"):
-            lines.append("%s %d %d" % (name, k, cost()))
+        if name == "sinc":
+            for _try in range(6):
+                c = cost()
+                u1 = used - costs.get(k, 0)
+                if fits(u1) and fits(u1 + c):
+                    used, costs[k] = u1 + c, c
+                    lines.append("sinc %d %d" % (k, c))
+                    break
+        elif name == "supd":
+            for _try in range(6):
+                c = cost()
+                if k not in costs:
+                    lines.append("supd %d %d" % (k, c))
+                    break
+                d = c - costs[k]
+                if fits(d) and fits(used + d):
+                    used, costs[k] = used + d, c
+                    lines.append("supd %d %d" % (k, c))
+                    break
         elif name == "srem":
+            if k in costs:
+                if not fits(used - costs[k]):
+                    continue
+                used -= costs.pop(k)
             lines.append("srem %d" % k)
-        elif name in ("sclear", "getmax"):
+        elif name == "sclear":
+            costs, used = {}, 0
+            lines.append(name)
+        elif name == "getmax":
             lines.append(name)
         elif name == "smax":
-            lines.append("smax %d" % cost())
+            mx = cost()
+            lines.append("smax %d" % mx)
         elif name == "room":
-            lines.append("room %d" % cost())
+            for _try in range(6):
+                c = cost()
+                if fits(used + c) and fits(mx - (used + c)):
+                    lines.append("room %d" % c)
+                    break
         elif name == "fill":
             n = r.rng(0, 7)
             lines.append(("fill " + " ".join("%d:%d" % (100 + i, r.rng(0, 9)) for i in range(n))).strip())
